@@ -771,9 +771,15 @@ func TestPublicationVersions(t *testing.T) {
 				var err error
 				if rapid.Bool().Draw(t, "maskedAudience") {
 					c.aud = rapid.SampledFrom([]string{"", "aud", "aud2"}).Draw(t, "maskedAud")
+					// the audience's name is part of the content whether the mask names it or the whole audience
+					path := rapid.SampledFrom([]string{"audience.name", "audience"}).Draw(t, "audiencePath")
+					if path == "audience" && c.aud == "" {
+						// a message-typed mask path merges (field mask update semantics): an audience without a name names nothing
+						c.aud = cur.aud
+					}
 					res, err = srv.UpdatePublication(ctx, &traits.UpdatePublicationRequest{Name: "n", Publication: &traits.Publication{Id: "p", Audience: &traits.Publication_Audience{Name: c.aud}},
-						UpdateMask: &fieldmaskpb.FieldMask{Paths: []string{"audience.name"}}, Version: before.Version})
-					hist = append(hist, fmt.Sprintf("update-masked(audience.name=%s)", c.aud))
+						UpdateMask: &fieldmaskpb.FieldMask{Paths: []string{path}}, Version: before.Version})
+					hist = append(hist, fmt.Sprintf("update-masked(%s, name=%s)", path, c.aud))
 				} else {
 					c.body = rapid.SampledFrom(pubBodies).Draw(t, "maskedBody")
 					res, err = srv.UpdatePublication(ctx, &traits.UpdatePublicationRequest{Name: "n", Publication: &traits.Publication{Id: "p", Body: pubBody(c.body)},
